@@ -234,7 +234,7 @@ fn one_session(kind: &str, m: &HashMap<String, String>, seed: u64, i: usize, lev
                 (sk.forms(), vec![format!("scope:{}", sk.describe())], vec![])
             }
             "cont" => {
-                let (forms, tags) = crate::gen_cont::session(&mut crate::rng::Rng::new(sseed));
+                let (forms, tags) = crate::gen_cont::session_nth(&mut crate::rng::Rng::new(sseed), Some(i));
                 (forms, tags, vec![])
             }
             "bigform" => {
